@@ -26,8 +26,8 @@ DESCRIBE = {
                      "(theorem coarsen_merge_commute)",
     "agg": "coarsen with a requested aggregate (max/min) on the count column: key set = Lean L0, value = aggregate over exactly the old "
            "pixels that Lean's `cmap` sends to the key",
-    "extra_column": "coarsen with columns=['count','w']: the output carries w, count = exact sum (Lean), w = sum/max/min over exactly the "
-                    "old pixels that Lean's `cmap` sends to the key",
+    "extra_column": "coarsen with columns=['count','w'] or ['w'] (D25 regression): the output carries every requested column, count = exact "
+                    "sum (Lean), w = sum/max/min over exactly the old pixels that Lean's `cmap` sends to the key",
     "cli": "`cooler coarsen -k K -c CHUNK -o out in` (CliRunner) vs Lean L0",
     "prune": "contract `validPrunedEdges` evaluated by Lean on the real _greedy_prune_partition(edges, chunksize) output",
     "coarsener": "CoolerCoarsener(uri, k, chunksize): its pruned `.edges` satisfy `validPrunedEdges` w.r.t. Lean's `coarsenEdges` (every cut "
@@ -218,8 +218,10 @@ def _agg(case):
 
 
 def _extra_column(case):
-    """an extra value column requested through `columns=` is aggregated into the output (sum, or the requested aggregate)"""
+    """an extra value column requested through `columns=` is aggregated into the output (sum, or the requested aggregate);
+    regression guard for D25 (coarsen_cooler did not pass `columns` to create)"""
     bins, pixels, k, agg = case["bins"], case["pixels"], case["k"], case["agg"]
+    cols = case.get("columns", ["count", "w"])
     d = gen.tmpdir()
     src = os.path.join(d, f"x-{_tag()}-src.cool")
     out = os.path.join(d, f"x-{_tag()}-out.cool")
@@ -227,21 +229,29 @@ def _extra_column(case):
         w = [float(v * 2 + (i % 3)) for i, (_, _, v) in enumerate(pixels)]
         gen.write_cooler(src, bins, pixels, extra={"w": w}, columns=["count", "w"], dtypes={"w": "float64"})
         kw = {"agg": {"w": agg}} if agg != "sum" else {}
-        impl(cooler.coarsen_cooler, src, out, k, chunksize=case["chunksize"], columns=["count", "w"], **kw)
+        impl(cooler.coarsen_cooler, src, out, k, chunksize=case["chunksize"], columns=cols, **kw)
         t = cooler.Cooler(out).pixels()[:]
-        if "w" not in t.columns:
-            return {"mismatch": True, "what": "requested value column missing from the output", "columns": list(map(str, t.columns))}
-        got = {(int(a), int(b)): (int(c), float(x)) for a, b, c, x in zip(t["bin1_id"], t["bin2_id"], t["count"], t["w"])}
+        for col in cols:
+            if col not in t.columns:
+                return {"mismatch": True, "what": "requested value column missing from the output", "column": col,
+                        "columns": list(map(str, t.columns))}
         m = _ask_coarsen(bins, pixels, k, case["chunksize"])
         cm = drv().ask("C08.rebin", bins=bins, lens=_lens(bins), k=k)["cmap"]
         keys = [(p[0], p[1]) for p in m["pixels"]]
-        if sorted(got) != keys or [got[q][0] for q in keys] != [p[2] for p in m["pixels"]]:
-            return {"mismatch": True, "what": "count column next to an extra column", "impl": sorted(got.items()), "model": m["pixels"]}
+        gotkeys = [(int(a), int(b)) for a, b in zip(t["bin1_id"], t["bin2_id"])]
+        if gotkeys != keys:
+            return {"mismatch": True, "what": "key set / order next to an extra column", "impl": gotkeys, "model": keys}
+        if "count" in cols and [int(c) for c in t["count"]] != [p[2] for p in m["pixels"]]:
+            return {"mismatch": True, "what": "count column next to an extra column", "impl": [int(c) for c in t["count"]],
+                    "model": m["pixels"]}
         f = {"max": max, "min": min, "sum": sum}[agg]
-        for key in keys:
-            vals = [x for (i, j, _), x in zip(pixels, w) if (cm[i], cm[j]) == key]
-            if got[key][1] != f(vals):      # small integers and halves: exact in float64
-                return {"mismatch": True, "what": f"w column agg={agg}", "key": key, "impl": got[key][1], "expected": f(vals)}
+        for key, x in zip(keys, t["w"]):
+            vals = [y for (i, j, _), y in zip(pixels, w) if (cm[i], cm[j]) == key]
+            if float(x) != f(vals):      # small integers: exact in float64
+                return {"mismatch": True, "what": f"w column agg={agg}", "key": key, "impl": float(x), "expected": f(vals)}
+        v = [x for x in monitor.violations(out) if "count" in cols or "sum" not in x]
+        if v:
+            return {"mismatch": True, "what": "schema (C02 monitor)", "violated": v}
         return None
     finally:
         _unlink(src, out)
@@ -448,6 +458,8 @@ def cases(tier, rng):
         yield "agg", dict(c, agg=rng.choice(["max", "min"]))
         if t % 2 == 0:
             yield "extra_column", dict(c, agg=["sum", "max", "min"][(t // 2) % 3])
+        if t % 4 == 1:
+            yield "extra_column", dict(c, agg=["max", "sum"][(t // 4) % 2], columns=["w"])
     for _ in range(10 if thorough else 4):
         c = _cooler(rng, nmax)
         yield "cli", dict(c, k=rng.randint(2, len(c["bins"]) + 1), chunksize=rng.randint(1, 6))
@@ -494,15 +506,6 @@ def shrink(name, case):
             if "chunksizes" in c and name != "cli":
                 c["chunksizes"] = sorted({min(x, len(c["pixels"]) + 1) for x in c["chunksizes"]})
             yield c
-
-
-def classify(name, case, res, findings):
-    """proposed ledger entry D24: coarsen_cooler does not pass `columns` to create(), so a requested extra value column is
-    aggregated and then silently not written"""
-    ids = {f["id"] for f in findings}
-    if name == "extra_column" and res.get("what") == "requested value column missing from the output" and "D24" in ids:
-        return "D24"
-    return None
 
 
 def escalate(name, case, rng):
